@@ -32,6 +32,7 @@ func ConcreteReplay(p *Program, entry *ssa.Function, cfg Config, v Violation) (b
 	m := newMachine(p, cfg, sol, prefix, res)
 	m.concrete = append([]NondetVal{}, v.Values...)
 	m.concreteMode = true
+	sol.Fresh()
 	sol.Push()
 	outcome := "done"
 	func() {
